@@ -29,6 +29,7 @@ class TCPServer:
         self.config = config
         self.context = context
         self.protocol: ProtocolWrapper
+        self.reading = True
         self.send_lock = trio.Lock()
         self.idle_task = TrioSingleTask()
         self.stream = stream
@@ -73,6 +74,9 @@ class TCPServer:
                 await self.protocol.initiate()
                 await self.idle_task.restart(self._task_group, self._idle_timeout)
                 await self._read_data()
+                # The peer is gone, do not wait for the keep alive timeout
+                self.reading = False
+                await self.idle_task.stop()
         except OSError:
             pass
         finally:
@@ -95,8 +99,10 @@ class TCPServer:
             await self._close()
             await self.protocol.handle(Closed())
         elif isinstance(event, Updated):
-            if event.idle:
+            if event.idle and self.reading:
                 await self.idle_task.restart(self._task_group, self._idle_timeout)
+            elif event.idle:
+                pass  # Nothing more will be read, no point in waiting for it
             else:
                 await self.idle_task.stop()
 
